@@ -245,3 +245,38 @@ fn big_boxed_array_total_n2() {
     if r.is_ok() { assert!(count >= 2); }
     if count < 2 { assert!(r.is_err()); }
 }
+
+// the projective-form codecs (every Commitment<G> field) go through the same validating decoders
+#[kani::proof]
+#[kani::unwind(50)]
+#[kani::stub(bls12_381::G1Affine::from_compressed, stub_g1_from_compressed)]
+#[kani::stub(bls12_381::G1Affine::from_compressed_unchecked, stub_g1_unchecked)]
+#[kani::stub(bls12_381::G1Affine::from_uncompressed, stub_g1_unc96)]
+#[kani::stub(bls12_381::G1Affine::from_uncompressed_unchecked, stub_g1_unc96)]
+fn g1_projective_codec_validates() {
+    let bytes: [u8; 48] = kani::any();
+    let r = <bls12_381::G1Projective as SerializeElement>::deserialize(BytesDe { bytes: &bytes });
+    unsafe {
+        assert!(UNCHECKED_CALLS == 0);
+        assert!(VALIDATING_CALLS == 1);
+        assert!(SEEN48 == bytes);
+        assert!(r.is_ok() == ACCEPT);
+    }
+}
+
+#[kani::proof]
+#[kani::unwind(98)]
+#[kani::stub(bls12_381::G2Affine::from_compressed, stub_g2_from_compressed)]
+#[kani::stub(bls12_381::G2Affine::from_compressed_unchecked, stub_g2_unchecked)]
+#[kani::stub(bls12_381::G2Affine::from_uncompressed, stub_g2_unc192)]
+#[kani::stub(bls12_381::G2Affine::from_uncompressed_unchecked, stub_g2_unc192)]
+fn g2_projective_codec_validates() {
+    let bytes: [u8; 96] = kani::any();
+    let r = <bls12_381::G2Projective as SerializeElement>::deserialize(BytesDe { bytes: &bytes });
+    unsafe {
+        assert!(UNCHECKED_CALLS == 0);
+        assert!(VALIDATING_CALLS == 1);
+        assert!(SEEN96 == bytes);
+        assert!(r.is_ok() == ACCEPT);
+    }
+}
